@@ -405,6 +405,7 @@ def meta(tier):
     return dict(
         bounds=dict(exact="kernel n<=4 (thorough 5): value == sum for ALL integer matrices, permutations enumerated (term-level identity); instance (real constructor: stored == given, dtype, bounds): one matrix from a seeded concrete pool (incl. all-zero, ties, zero rows), the other symbolic (n=2: 0..10^6, n=3: 0..1000), both roles",
                     bounds="as instance: one concrete, one symbolic matrix, all permutations",
+                    input_types="matrices handed to Instance(...) as uint64 (what the loader builds) and, for n=2, as uint8 / int16 arrays with entries over the whole range of the type (numpy array arithmetic in such types wraps: modelled exactly)",
                     loader="n<=2: every wrapping of the 2n^2 numbers into lines (n on its own first line, optional blank lines), numbers symbolic; thorough: budgeted subset for n=3"),
         outside=["instance-level clauses with BOTH matrices symbolic (symbolic x symbolic products + sorting networks: unknown at 300 s even for n=2, DESIGN 3.5)", "digit-level parsing", "files whose first line holds more than n",
                  "float64 accumulation inside the compiled kernel (unsigned dtypes make numba accumulate in float64): exact for sums below 2^53, which upper bound < 10^15 implies"],
